@@ -22,7 +22,7 @@ from .core import AnchorError
 from .c12_str import Lit, Fmt, Strip, CallS, Round
 from .c12_exec import walk_value
 from .c12_model import width_bounds
-from .c12_float import BULK, SCI, FloatAnalysis, SciRun, SCI_INTERVALS, describe, inner_of, first_stage_precision, open_tests
+from .c12_float import BULK, SCI, FloatAnalysis, SciRun, SCI_INTERVALS, describe, inner_of, first_stage_precision, open_tests, POINT
 
 FLOATS = (("format_float8", 8), ("format_float16", 16))
 
@@ -58,6 +58,8 @@ def _regtxt(reg):
     side = "-" if reg.neg else ""
     if reg.carry_upto < 0:
         return f"{side}[1e{reg.k - 1}, 1e{reg.k})"
+    if reg.carry_upto >= POINT:
+        return f"{side}1e{reg.k} exactly"
     return f"{side}x that rounds up to 1e{reg.k} at <= {reg.carry_upto} decimals"
 
 
@@ -267,8 +269,14 @@ def r2_scientific(ctx):
         rets = [lf for lf in z.leaves if lf.kind == "return"]
         rets = rets[:1] if rets and all(lf.value == rets[0].value for lf in rets) else rets
         okz = len(rets) == 1 and isinstance(rets[0].value, Lit) and len(rets[0].value.s) == W and rets[0].value.s.strip().startswith("0.")
-        ctx.check(okz, f"{q}: zero is rendered in exactly {W} characters", rets[0].node if rets else fn,
-                  None if okz else [describe(lf.value) for lf in rets])
+        whatz = f"{q}: zero is rendered in exactly {W} characters"
+        openz = sorted({f[0] for lf in rets for f in lf.state.facts})
+        if not okz and (openz or not rets or not all(isinstance(lf.value, Lit) for lf in rets)):
+            # several paths for the one value 0.0 (a test the engine does not decide), or text that is not concrete: nothing is proved wrong
+            ctx.error(whatz + ": not decided - the rendering of 0.0 is not a single concrete text", rets[0].node if rets else fn,
+                      {"tests": openz[:3], "renderings": [describe(lf.value) for lf in rets][:3]})
+        else:
+            ctx.check(okz, whatz, rets[0].node if rets else fn, None if okz else [describe(lf.value) for lf in rets])
 
 
 from .c12_cards import r3_card_grid  # noqa: E402
